@@ -229,6 +229,27 @@ class Judge:
                  "steps": compact(hist[:row["step"] + 1]), "cmd": "python3 tools/verif.py replay X01 <this file>"})
 
 
+def probe_repaired(ctx):
+    """OpenWriter; Writer.Close; acquireReader(1) with MaxDescriptors = 1: as written the reader parks."""
+    r = ctx.tlc(AREA, "FileControllerGen", "probe.cfg", files={"probe.cfg": gen_cfg(consts(1, 1, 2, 2, 1, 1), 3, 0, 0)},
+                tag="probe", workers=1, timeout=600)
+    want = None
+    for h in r.hists():
+        if [s["a"] for s in h] == ["open", "closew", "acqr"] and [s["r"] for s in h] == ["ok", "ok", "block"]:
+            want = h
+            break
+    if want is None:
+        raise vlib.Inconclusive("probe behaviour not generated")
+    hp = ctx.path("probe.ndjson")
+    with open(hp, "w") as f:
+        f.write(json.dumps(want) + "\n")
+    _, rows, _ = replay_file(ctx, hp, 1, "probe", workers=1)
+    for row in rows:
+        if row["r"] == "mismatch" and row.get("clause") == "blocking" and row["step"] == 2 and "returned a handle" in row.get("act", ""):
+            return True
+    return False
+
+
 def run(ctx):
     thorough = ctx.tier == "thorough"
     W6 = 6
@@ -270,6 +291,15 @@ def run(ctx):
     # 2. behaviours -> real code
     samples = []
     gens = []
+    # Is Dev_ReaderStarvedByIdleSmallWriter repaired in this tree?  One directed behaviour decides which
+    # of the two models (as written / FixStarve) the behaviours are generated from.
+    repaired = probe_repaired(ctx)
+    if repaired:
+        ctx.notes.append("tree under test evicts idle writer handles of small files for a blocked reader: "
+                         "behaviours generated from the repaired model (FixStarve = TRUE)")
+
+    def gc(*a):  # generator constants follow the probe
+        return consts(*a, fix=repaired)
 
     def gen_and_replay(name, mx, c, depth, prefix, noise=2, simulate=None, simdepth=None):
         kw = {}
@@ -298,33 +328,33 @@ def run(ctx):
             pass
 
     if not thorough:
-        gen_and_replay("g_m1", 1, consts(1, 2, 3, 4, 1, 1), 5, 0)
-        gen_and_replay("g_m2", 2, consts(2, 2, 3, 4, 2, 2), 5, 0)
-        gen_and_replay("g_p1", 2, consts(2, 2, 3, 4, 2, 2), 7, 1)
-        gen_and_replay("g_p2", 1, consts(1, 2, 3, 4, 1, 1), 7, 2)
-        gen_and_replay("g_p3", 2, consts(2, 2, 3, 4, 2, 1), 9, 3)
-        gen_and_replay("g_p4", 2, consts(2, 2, 3, 4, 2, 1), 9, 4)
-        gen_and_replay("g_p5", 1, consts(1, 2, 3, 4, 1, 1), 8, 5)
-        gen_and_replay("g_p6", 2, consts(2, 2, 3, 4, 2, 1), 9, 6)
+        gen_and_replay("g_m1", 1, gc(1, 2, 3, 4, 1, 1), 5, 0)
+        gen_and_replay("g_m2", 2, gc(2, 2, 3, 4, 2, 2), 5, 0)
+        gen_and_replay("g_p1", 2, gc(2, 2, 3, 4, 2, 2), 7, 1)
+        gen_and_replay("g_p2", 1, gc(1, 2, 3, 4, 1, 1), 7, 2)
+        gen_and_replay("g_p3", 2, gc(2, 2, 3, 4, 2, 1), 9, 3)
+        gen_and_replay("g_p4", 2, gc(2, 2, 3, 4, 2, 1), 9, 4)
+        gen_and_replay("g_p5", 1, gc(1, 2, 3, 4, 1, 1), 8, 5)
+        gen_and_replay("g_p6", 2, gc(2, 2, 3, 4, 2, 1), 9, 6)
         exhaustive_n = sum(g["histories"] for g in gens)
-        gen_and_replay("s_m3", 3, consts(3, 3, 4, 5, 3, 2), 16, 0, noise=3, simulate="num=250", simdepth=18)
+        gen_and_replay("s_m3", 3, gc(3, 3, 4, 5, 3, 2), 16, 0, noise=3, simulate="num=250", simdepth=18)
     else:
-        gen_and_replay("g_m1", 1, consts(1, 2, 3, 4, 1, 1), 6, 0)
-        gen_and_replay("g_m2", 2, consts(2, 2, 3, 4, 2, 2), 6, 0)
-        gen_and_replay("g_m3", 3, consts(3, 3, 3, 4, 3, 2), 5, 0)
-        gen_and_replay("g_p1", 2, consts(2, 2, 3, 4, 2, 2), 8, 1)
-        gen_and_replay("g_p1m1", 1, consts(1, 2, 3, 4, 1, 1), 8, 1)
-        gen_and_replay("g_p2", 1, consts(1, 2, 3, 4, 1, 1), 8, 2)
-        gen_and_replay("g_p2m2", 2, consts(2, 2, 3, 4, 2, 2), 7, 2)
-        gen_and_replay("g_p3", 2, consts(2, 2, 3, 4, 2, 1), 10, 3)
-        gen_and_replay("g_p4", 2, consts(2, 2, 3, 4, 2, 1), 10, 4)
-        gen_and_replay("g_p5", 1, consts(1, 2, 3, 4, 1, 1), 9, 5)
-        gen_and_replay("g_p5m2", 2, consts(2, 2, 3, 4, 2, 1), 8, 5)
-        gen_and_replay("g_p6", 2, consts(2, 2, 3, 4, 2, 1), 10, 6)
+        gen_and_replay("g_m1", 1, gc(1, 2, 3, 4, 1, 1), 6, 0)
+        gen_and_replay("g_m2", 2, gc(2, 2, 3, 4, 2, 2), 6, 0)
+        gen_and_replay("g_m3", 3, gc(3, 3, 3, 4, 3, 2), 5, 0)
+        gen_and_replay("g_p1", 2, gc(2, 2, 3, 4, 2, 2), 8, 1)
+        gen_and_replay("g_p1m1", 1, gc(1, 2, 3, 4, 1, 1), 8, 1)
+        gen_and_replay("g_p2", 1, gc(1, 2, 3, 4, 1, 1), 8, 2)
+        gen_and_replay("g_p2m2", 2, gc(2, 2, 3, 4, 2, 2), 7, 2)
+        gen_and_replay("g_p3", 2, gc(2, 2, 3, 4, 2, 1), 10, 3)
+        gen_and_replay("g_p4", 2, gc(2, 2, 3, 4, 2, 1), 10, 4)
+        gen_and_replay("g_p5", 1, gc(1, 2, 3, 4, 1, 1), 9, 5)
+        gen_and_replay("g_p5m2", 2, gc(2, 2, 3, 4, 2, 1), 8, 5)
+        gen_and_replay("g_p6", 2, gc(2, 2, 3, 4, 2, 1), 10, 6)
         exhaustive_n = sum(g["histories"] for g in gens)
-        gen_and_replay("s_m3", 3, consts(3, 3, 4, 5, 3, 2), 18, 0, noise=3, simulate="num=1500", simdepth=20)
-        gen_and_replay("s_m2", 2, consts(2, 3, 4, 5, 2, 2), 14, 0, noise=2, simulate="num=1500", simdepth=16)
-        gen_and_replay("s_m4", 4, consts(4, 3, 4, 5, 3, 2), 20, 0, noise=3, simulate="num=1000", simdepth=22)
+        gen_and_replay("s_m3", 3, gc(3, 3, 4, 5, 3, 2), 18, 0, noise=3, simulate="num=1500", simdepth=20)
+        gen_and_replay("s_m2", 2, gc(2, 3, 4, 5, 2, 2), 14, 0, noise=2, simulate="num=1500", simdepth=16)
+        gen_and_replay("s_m4", 4, gc(4, 3, 4, 5, 3, 2), 20, 0, noise=3, simulate="num=1000", simdepth=22)
     ctx.notes.append("bounded-exhaustive histories: %d; simulated (seeded): %d" % (
         exhaustive_n, sum(g["histories"] for g in gens) - exhaustive_n))
 
@@ -333,6 +363,8 @@ def run(ctx):
             "AcqRReuse", "AcqRBlocked", "AcqRLocked", "GcNoopWriter", "GcNoopReaders", "GcNoopThreshold", "GcBegin",
             "GcFinish", "GcStaysOversize", "OpensDuringGc", "Close", "CloseBusy", "Reopen", "AtLimit", "IndexChecks",
             "HandOvers"]
+    if repaired:
+        need.remove("Requeued")  # with the repair every release lets the head waiter return
     vac = [k for k in need if not cnt.get(k)]
     cov = {
         "states": states, "transitions": trans,
